@@ -51,8 +51,9 @@ From Bifrost Require Import Lib.Base.
 
 (* transport/common/dialer DialerOpts: the address and everything else (backoff ...) *)
 Record dialer_opts := mk_dialer_opts { opts_address : bytes; opts_rest : bytes }.
-(* net/url.URL, identified with the text String() renders (see the C37 notes) *)
-Record url := mk_url { url_text : bytes }.
+(* net/url.URL: the text String() renders (what IsEquivalent compares) and the Path field
+   (what the HTTP lookup controllers resolve on); see the C37 notes *)
+Record url := mk_url { url_text : bytes; url_path : bytes }.
 
 """
 
